@@ -67,7 +67,7 @@ def confirm(src, pid):
         pass
     summ = {r.get("file"): r for r in meta.get("refactorings", []) if isinstance(r, dict)}
     jobs = []
-    for d in sorted(list(srcd.glob("r*.diff")) + list(srcd.glob("s*.diff")) + list(srcd.glob("t*.diff")) + list(srcd.glob("u*.diff"))):
+    for d in sorted(list(srcd.glob("r*.diff")) + list(srcd.glob("s*.diff")) + list(srcd.glob("t*.diff")) + list(srcd.glob("u*.diff")) + list(srcd.glob("v*.diff"))):
         r = summ.get(d.name, {})
         jobs.append((d, "%s-%s" % (pid, d.stem), {"summary": r.get("summary"), "why_equivalent": r.get("why_equivalent")}))
     with ProcessPoolExecutor(max_workers=5) as ex:
